@@ -35,7 +35,7 @@ def jobs(tier):
         J.append(Job("C10.memswap.len%d" % n, "C10", "K3", "Assign/k3_memswap.c", "h_memswap_len", ["memswap"], defines=["LEN=%d" % n],
                      link=["src/Exception.c", "stubs/throw.c"], replace_calls=["exception_throw:cv_throw"], unwind=n + 3, group="C10.memswap.bounded",
                      bound="memswap stand-in without loop contract: lengths %s" % ("0..33" if tier == "thorough" else "0,1,7,8,9,12,16,17,21,24"), case="len=%d" % n))
-    J.append(Job("C10.copy.k2", "C10", "K2", "Alloc/k2_copy.c", "h_copy", ["copy", "alloc_by", "new_with", "construct_with"], link=["src/Exception.c", "stubs/throw.c"],
+    J.append(Job("C10.copy.k2", "C10", "K2", "Alloc/k2_copy.c", "h_copy", ["copy", "alloc_by", "new_with", "construct_with"], link=["src/Exception.c", "src/Num.c", "src/Pointer.c", "stubs/throw.c"],
                  replace_calls=["exception_throw:cv_throw"], unwind=4, also=["C19"], group="C10.copy.k2",
                  assumptions=["alloc (calloc model) and assign are cut by their contracts (C19 alloc, C10 Int_Assign)"]))
     J.append(Job("C10.Ref.k2", "C10", "K2", "Pointer/k2.c", "h_ref", ["Ref_Assign", "Ref_Ref", "Ref_Deref", "deref", "ref"], link=["src/Exception.c", "src/Num.c", "stubs/throw.c"],
